@@ -38,8 +38,10 @@ def placements(E, deep=False, all_aggs=False):
     one = [('p', 'Person')]
     if deep:
         if not any(n.op in ('and', 'or') and any(c.t != COND for c in n.a) for n in qx.walk(E)):
-            out.append(('projT', Query(one, (PID, E)), ('str', 'gen')))
-        if t in FILTERABLE: out.append(('filter', Query(one, P, [E]), ('str', 'lam')))
+            out.append(('projT', Query(one, (PID, E)), ('str',)))
+        if t in FILTERABLE:
+            boolean = E.op in ('and', 'or', 'not', 'ifexp') or any(c.op in ('and', 'or', 'not', 'ifexp') for c in E.a)
+            out.append(('filter', Query(one, P, [E]), ('str', 'lam') if boolean else ('str',)))
         return out
     ext = qx.is_external(E)
     # `a and b` / `a or b` over plain values yields an operand in Python but a truth value in SQL: such
